@@ -137,18 +137,27 @@ def source_audit():
     return hits
 
 
+def prop_modules(pid):
+    """Coraza.Properties.<pid> and its continuation files <pid>b, <pid>c, …"""
+    d = os.path.join(LEAN, "Coraza", "Properties")
+    return ["Coraza.Properties." + f[:-5] for f in sorted(os.listdir(d)) if re.fullmatch(re.escape(pid) + r"[a-z]?\.lean", f)]
+
+
 def theorems_of(pid):
-    p = os.path.join(LEAN, "Coraza", "Properties", pid + ".lean")
-    txt = open(p).read()
-    txt = re.sub(r"/-.*?-/", "", txt, flags=re.S)
-    return re.findall(r"^theorem\s+([^\s(:{\[]+)", txt, flags=re.M)
+    names = []
+    for m in prop_modules(pid):
+        txt = open(os.path.join(LEAN, *m.split(".")) + ".lean").read()
+        txt = re.sub(r"/-.*?-/", "", txt, flags=re.S)
+        names += re.findall(r"^theorem\s+([^\s(:{\[]+)", txt, flags=re.M)
+    return names
 
 
 def axiom_audit(pid, names):
     os.makedirs(os.path.join(WORK, pid), exist_ok=True)
     f = os.path.join(WORK, pid, "Audit.lean")
     with open(f, "w") as w:
-        w.write(f"import Coraza.Properties.{pid}\n")
+        for m in prop_modules(pid):
+            w.write(f"import {m}\n")
         for n in names:
             w.write(f"#print axioms {n}\n")
     rc, out = run(["lake", "env", "lean", f], cwd=LEAN)
@@ -226,6 +235,14 @@ def klass(verdict):
     return "E"
 
 
+def obs_kind(line):
+    obs = line.split(" => ", 1)[1] if " => " in line else ""
+    for k in ("CONFIGERR", "BADCASE", "PANIC", "NOTFOUND", "UNSTABLE"):
+        if k in obs:
+            return k
+    return ""
+
+
 def shrink(line, want, wd, budget=40):
     """greedy shrink of the hex fields of a failing case keeping verdict class `want`"""
     lhs = lhs_of(line).split(" ")
@@ -236,8 +253,8 @@ def shrink(line, want, wd, budget=40):
     for _ in range(budget):
         cands = []
         for i, tok in enumerate(best):
-            if i < 1 or not re.fullmatch(r"([0-9a-f]{2})+", tok):
-                continue
+            if i < 1 or not re.fullmatch(r"([0-9a-f]{2})+", tok) or re.fullmatch(r"\d{1,4}", tok):
+                continue    # (short all-digit tokens are counts and limits, not hex fields)
             nb = len(tok) // 2
             cuts = set()
             if nb > 1:
@@ -255,8 +272,10 @@ def shrink(line, want, wd, budget=40):
         full = corr_exec([" ".join(c) for c in cands], wd, "shrink")
         verd = judge_lines(full, wd, "shrink")
         nxt = None
-        for c, v in zip(cands, verd):
-            if klass(v) == want:
+        for c, v, fl in zip(cands, verd, full):
+            # the cut case has to fail the same way: a cut that turns a numeric field into a malformed one
+            # (CONFIGERR/BADCASE) is a different case, not a smaller one
+            if klass(v) == want and obs_kind(fl) == obs_kind(line):
                 nxt = c
                 break
         if nxt is None:
@@ -319,7 +338,7 @@ def check(pid, tier, seed):
     # ---- 1. proof obligations
     names = theorems_of(pid)
     module = f"Coraza.Properties.{pid}"
-    rc, out = build_lean([module, "driver"])
+    rc, out = build_lean(prop_modules(pid) + ["driver"])
     obligations = len(names)
     discharged = 0
     thm_axioms = {}
@@ -597,7 +616,7 @@ def setup():
     print(out[-3000:])
     if rc != 0:
         return 1
-    mods = [f"Coraza.Properties.{p}" for p in sorted(props.PROPS)]
+    mods = [m for p in sorted(props.PROPS) for m in prop_modules(p)]
     rc, out = build_lean(mods + ["driver"])
     print(out[-3000:])
     if rc != 0:
